@@ -709,6 +709,32 @@ def gen_case(rng: random.Random) -> Tuple[Dict[str, Any], List[str]]:
                     drain()
                 else:
                     evs.append(rng.choice([f'begin:{rng.randrange(nb)}', f'val:{rng.randrange(nv)}']))
+            if rng.random() < 0.4:
+                # the dialogue of user u is overtaken by a request naming ANOTHER user, and u's correct answer arrives
+                # right behind it, while the new request's begin_auth is still pending: the answer belongs to a
+                # dialogue that is over and must not count for anybody
+                if rng.random() < 0.85:
+                    app['async'] = True
+                app['kbd0'] = sorted(dict(list(app['kbd0']) + [(u, 2)]).items())
+                ok = [cc for uu, cc, a in app['kbd1'] if uu == u and a == 1]
+                if not ok:
+                    cc = rng.randrange(3)
+                    app['kbd1'] = sorted([t for t in app['kbd1'] if (t[0], t[1]) != (u, cc)] + [(u, cc, 1)])
+                    ok = [cc]
+                evs.append(f'req:{u}:kbdint:0')
+                nb += 1
+                nv += 1
+                evs.append(f'begin:{nb - 1}')
+                evs.extend(f'val:{k}' for k in range(nv))       # the challenge is out: u is being prompted
+                u2 = rng.choice([x for x in us if x != u])
+                evs.append(f'req:{u2}:{rng.choice(["none", "password", "kbdint", "pksig1"])}:0')
+                nb += 1
+                nv += 1
+                if rng.random() < 0.25:
+                    evs.append(f'begin:{nb - 1}')
+                evs.append(f'info:{rng.choice(ok)}')
+                nv += 1
+                evs.extend(f'val:{k}' for k in range(nv))       # the answer is checked before begin_auth returns
     if rng.random() < 0.7:
         drain()
     return app, evs
@@ -733,6 +759,12 @@ def model_line(app: Dict[str, Any], events: List[str], variant: str = 'new') -> 
 
 
 CORPUS = [
+    # a keyboard-interactive dialogue overtaken by a request naming another user; the first user's correct answer
+    # arrives while the new request's begin_auth is pending (seed C05-superseded-auth-handler-left-attached)
+    ({'async': True, 'noauth': [], 'pw': [], 'key': [], 'kbd0': [(1, 2), (2, 2)], 'kbd1': [(1, 1, 1)]},
+     ['req:1:kbdint:0', 'begin:0', 'val:0', 'req:2:none:0', 'info:1', 'val:1', 'begin:1', 'val:2', 'val:3']),
+    ({'async': True, 'noauth': [], 'pw': [], 'key': [], 'kbd0': [(1, 2), (2, 2)], 'kbd1': [(1, 1, 1)]},
+     ['req:1:kbdint:0', 'begin:0', 'val:0', 'req:2:password:0', 'info:1', 'val:2', 'val:1', 'begin:1', 'val:3']),
     ({'async': True, 'peruser': True, 'noauth': [], 'pw': [], 'key': [(1, 1), (2, 2)]},
      ['req:1:pkprobe:1', 'begin:0', 'val:0', 'req:2:none:0', 'req:2:pksig1:1', 'val:1', 'begin:2', 'val:2']),   # second form of F1
     ({'async': True, 'noauth': [], 'pw': [(1, 7)], 'key': []},
